@@ -1630,6 +1630,30 @@ fn first_diff_index(a: &Dump, b: &Dump, not: u16) -> Option<u16> {
 
 /// Run a plan of engine H in a fresh work directory.
 pub fn run_history(plan: &Plan, workdir: &Path) -> Outcome {
+    let mut out = run_history_once(plan, workdir);
+    // C13: a build that fails or panics only when several per-tree tasks are in flight is a collision of
+    // the parallel section: decide by re-running the same plan with a logical pool of one
+    if plan.focus == "C13" && out.violation.is_none() && plan.cfg.pool > 1 {
+        if let Some(first) = out.observations.first().cloned() {
+            if out.unevaluable.is_some() && matches!(first.kind.as_str(), "build_panic" | "build_error" | "tick_budget") {
+                let mut p1 = plan.clone();
+                p1.cfg.pool = 1;
+                let o1 = run_history_once(&p1, workdir);
+                if o1.unevaluable.is_none() && o1.observations.is_empty() && o1.violation.is_none() {
+                    out.violation = Some(Violation {
+                        properties: vec!["C13".into()],
+                        kind: "parallel_build_failed".into(),
+                        step: first.step,
+                        detail: format!("with a logical pool of {} the build fails ({}), with a pool of 1 the same plan runs clean", plan.cfg.pool, first.detail),
+                    });
+                }
+            }
+        }
+    }
+    out
+}
+
+fn run_history_once(plan: &Plan, workdir: &Path) -> Outcome {
     let ts = Turnstile::new(plan.cfg.sched_seed, &plan.cfg.sched, plan.cfg.pool.max(1));
     ts.adopt_running(WRITER);
     let mut ex = Exec::new(plan, workdir, Some(ts));
